@@ -11,7 +11,8 @@ returns for the same statement.
   (+ regression witnesses `C17_float_fraction_inexact`, `C17_nomask_loses_null` for the repaired defects)
 * Python types / metadata: `C17_pytype_partial`, `C17_decimal_meta`, `finding_C17_*`
 * statement outcome: `C17_Full`, `C17_full_false`, `C17_response_partial`, `C17_response_classified`
-* sessions: `C17_token_slice`, `C17_auth_refused`, `C17_session_local`, `C17_login_local`, `C17_data_frame`, `C17_sharing`
+* sessions: `C17_token_slice`, `C17_auth_refused`, `C17_session_local`, `C17_login_local`, `C17_data_frame`, `C17_sharing`,
+  `C17_failed_statement_touches_nothing`, `C17_tx_only_commit_publishes`
 -/
 namespace Fs.C17
 open Fs.Http
@@ -217,6 +218,44 @@ theorem C17_own_session (s : Srv) (c : Char) (cs : List Char) (q : Q) (se : Sess
     lookup (step s (.query (some (c :: cs)) q)).1.sessions (slice17 (c :: cs)) = some (runQ se s.data q).1 := by
   simp only [step, hl]
   exact lookup_map_eq _ _ _ _ hl
+
+/-- **A failing statement leaves the transaction state alone**: when the statement sent through token `t` raises a
+    Snowflake ProgrammingError, the HTTP request answers the error and changes *nothing* — every session (the caller's
+    open transaction and its pending writes included) and all data are exactly what they were, which is what the
+    in-process `execute` does.  (The server must not roll back, commit or reset anything on the error path.) -/
+theorem C17_failed_statement_touches_nothing (s : Srv) (c : Char) (cs : List Char) (se : Sess)
+    (hl : lookup s.sessions (slice17 (c :: cs)) = some se) :
+    (step s (.query (some (c :: cs)) .fail)).2 = .error ∧
+    (step s (.query (some (c :: cs)) .fail)).1.data = s.data ∧
+    ∀ t', lookup (step s (.query (some (c :: cs)) .fail)).1.sessions t' = lookup s.sessions t' := by
+  simp only [step, hl, runQ]
+  refine ⟨trivial, trivial, fun t' => ?_⟩
+  by_cases e : t' = slice17 (c :: cs)
+  · rw [e, lookup_map_eq _ _ _ _ hl, hl]
+  · exact lookup_map_ne _ _ _ _ e
+
+/-- **Inside an explicit transaction only COMMIT publishes**: any other statement of the session — writes, reads, failing
+    statements, ROLLBACK — leaves the committed data (what every other session sees) unchanged; a failing statement keeps
+    the pending writes, ROLLBACK discards them, COMMIT appends exactly them. -/
+theorem C17_tx_only_commit_publishes (se : Sess) (d : List (Nat × Int)) (w : List Int) (h : se.tx = some w) :
+    (∀ q, q ≠ .commit → (runQ se d q).2.1 = d) ∧
+    (runQ se d .fail).1.tx = some w ∧ (runQ se d .rollback).1.tx = none ∧
+    (runQ se d .commit).2.1 = d ++ w.map (fun v => (se.inst, v)) ∧ (runQ se d .commit).1.tx = none := by
+  refine ⟨fun q hq => runQ_tx_data se d q (by rw [h]; rfl) hq, ?_, ?_, ?_, ?_⟩ <;> simp [runQ, h]
+
+/-- non-vacuity: BEGIN, write, failing statement, write, then ROLLBACK resp. COMMIT, observed by the session itself and
+    by a second plain login -/
+example :
+    (run {} [.login ['a'] .shared 1, .login ['b'] .shared 1,
+             .query (some (authHeader ['a'])) .begin, .query (some (authHeader ['a'])) (.put 1),
+             .query (some (authHeader ['a'])) .fail, .query (some (authHeader ['a'])) (.put 2),
+             .query (some (authHeader ['a'])) .getAll, .query (some (authHeader ['b'])) .getAll,
+             .query (some (authHeader ['a'])) .commit, .query (some (authHeader ['b'])) .getAll,
+             .query (some (authHeader ['a'])) .begin, .query (some (authHeader ['a'])) (.put 3),
+             .query (some (authHeader ['a'])) .fail, .query (some (authHeader ['a'])) .rollback,
+             .query (some (authHeader ['b'])) .getAll]).2
+    = [.token ['a'], .token ['b'], .status, .status, .error, .status, .rows [1, 2], .rows [], .status, .rows [1, 2],
+       .status, .status, .error, .status, .rows [1, 2]] := by decide
 
 /-- **Who shares data**: after *any* sequence of login/query requests (any tokens, forged ones included), two
     live sessions under different tokens use the same instance iff both logged in without asking for an
